@@ -31,6 +31,7 @@ def run(ctx) -> None:
     rep.rule("C10.R2", "bounded async map restores input order from an atomically paired index list", floor=3)
     rep.rule("C10.R3", "sync map keeps iteration order; first failing item's own error is raised", floor=3)
     rep.rule("C10.R4", "zip/product expansion enumerate combinations in input order", floor=3)
+    rep.rule("C10.R5", "a mapping graph node forwards every supplied input to the nested map (only the inner graph's own bound objects are left to be resolved inside)", floor=2)
 
     # ---- R1 ---------------------------------------------------------------------
     coll = db.func("runners._shared.helpers.collect_as_lists")
@@ -197,6 +198,11 @@ def run(ctx) -> None:
                     okf = okf and "error_handling == 'raise'" in tests.replace('"', "'")
                 rep.add("C10.R3", f"{f.qname}:first-failure@{_k(f, n)}", okf, f"{f.module.rel}:{n.lineno}", "raises the first FAILED item's own error, scanning in input order" if okf else "the raised error is not the first failed item's in input order")
 
+    # ---- R5 ---------------------------------------------------------------------
+    from .c18 import check_nested_map_inputs
+
+    check_nested_map_inputs(ctx, "C10.R5")
+
     # ---- R4 ---------------------------------------------------------------------
     gz = db.func("runners._shared.helpers._generate_zip_inputs")
     gp = db.func("runners._shared.helpers._generate_product_inputs")
@@ -224,6 +230,8 @@ HP = "src/hypergraph/runners/_shared/helpers.py"
 TA = "src/hypergraph/runners/_shared/template_async.py"
 TS = "src/hypergraph/runners/_shared/template_sync.py"
 VARIANTS = [
+    Variant("nested-map-drops-overriding-broadcast", "src/hypergraph/runners/sync/executors/graph_node.py", replace_once("if not (k in inner_bound and v is inner_bound[k])}", "if k not in inner_bound}"), {"C10.R5"}),
+    Variant("twin-nested-map-filter-demorgan", "src/hypergraph/runners/async_/executors/graph_node.py", replace_once("if not (k in inner_bound and v is inner_bound[k])}", "if k not in inner_bound or v is not inner_bound[k]}"), set()),
     Variant("collector-conditional-append", HP, replace_once("            collected[name].append(renamed_values.get(name))", "            if name in renamed_values:\n                collected[name].append(renamed_values[name])"), {"C10.R1"}),
     Variant("collector-skip-failed-item", HP, replace_once("            # Continue mode: use None placeholders to preserve list length\n            for name in node.outputs:\n                collected[name].append(None)\n            continue", "            continue"), {"C10.R1"}),
     Variant("collector-double-append", HP, replace_once("            for name in node.outputs:\n                collected[name].append(None)\n            continue", "            for name in node.outputs:\n                collected[name].append(None)"), {"C10.R1"}),
